@@ -78,7 +78,11 @@ def runImp (prop fS tyS srcS extS implS00 : String) : Result :=
   -- leaves null (the model: `importByFormat` returns the nil cell with the error)
   if (implS00.splitOn " left=").length > 1 then
     ⟨"P", s!"imp {fS}({tyS}) {srcS}: impl [{implS00}] violates {prop}: key=refused-value-left-in-the-cell"⟩ else
-  let implS0 := implS00
+  -- imports of a jsonline.Value also report what the cell DECLARES afterwards: "… decl=<format>:<type>"
+  let (implS0, declS) : String × Option String :=
+    match implS00.splitOn " decl=" with
+    | [a, b] => (a, some b)
+    | _ => (implS00, none)
   -- C11 cases carry "ok <raw> => <re-emitted value>"
   let (implS, reS) : String × Option String :=
     match implS0.splitOn " => " with
@@ -110,6 +114,11 @@ def runImp (prop fS tyS srcS extS implS00 : String) : Result :=
       match impl with
       | .panic _ => some "panic"
       | .ok r =>
+        -- a Value hands over its own declaration (the model's cell); any other input leaves the column's
+        if (match declS, mc with
+            | some d, .ok (c, none) => d != s!"{(Cells.format c).name}:{(Cells.rawType c).name}"
+            | _, _ => false) then some "cell-declares-something-else-than-the-imported-value"
+        else
         if ty != .none && !isValue && !(r matches .nil) && Cast.typeOf r != ty then some "import-wrong-raw-type"
         else if (v matches .nil) && !(r matches .nil) then some "nil-imported-as-value"
         else if prop == "C09" then
